@@ -452,7 +452,7 @@ func (g *gen) generate(ty string) *payload {
 			p.nsNil = true
 		} else {
 			p.nsNode = sp(g.nonEmpty())
-			idNeName := g.r.Chance(35) // service registered under an ID different from its name
+			idNeName := g.r.Chance(60) // service registered under an ID different from its name
 			for _, k := range g.uniqueKeys(g.n()) {
 				if k == "" {
 					continue // a service ID is never empty
